@@ -96,6 +96,14 @@ def run(prop, tier, seed, ctx):
         if "HistoryIndependent" not in mres2.violated:
             raise MachineryError("mutant %s did not violate HistoryIndependent" % mcfg)
     ctx.notes.append("self-test: a visitor reused across queries violates HistoryIndependent")
+    # sessions of EVERY length: the ghost `wrong` replaces the history, and with the rest of the state as TLC's VIEW the
+    # reachable set is finite
+    ures = tlc.run("StaticSession", "MC_StaticSession_unbounded.cfg", workers=4, timeout=600)
+    tlc.require_ok(ures, "MC_StaticSession_unbounded.cfg")
+    ctx.add_tlc(ures, "NeverWrong / NothingSurvives for sessions of unbounded length (VIEW StateView)")
+    umut = tlc.run("StaticSession", "MUT_StaticSession_unbounded_steals.cfg", workers=2, timeout=300)
+    if "NeverWrong" not in umut.violated:
+        raise MachineryError("mutant unbounded_steals did not violate NeverWrong")
     mres = tlc.run("MC_Static", "MUT_Static_bad_table_rows.cfg", workers=2, timeout=300)
     if "ThresholdLaw" not in mres.violated:
         raise MachineryError("mutant bad_table_rows did not violate ThresholdLaw")
